@@ -46,7 +46,7 @@ theorem output_exact (skip : List Str) (s : Str) (ts : List Tok) (es : List Expr
 contains no made-up braces. -/
 def EnvNamesPlain (ts : List Tok) : Prop :=
   ∀ pre esc n r, ts = pre ++ esc :: n :: r → esc.cat = .Escape → (n.text = sBegin ∨ n.text = sEnd) →
-    ∀ g tol mode a0 as rest, readArgs g (-1) (-1) tol mode r = .ok (a0 :: as, rest) →
+    ∀ g nreq nopt tol mode a0 as rest, readArgs g nreq nopt tol mode r = .ok (a0 :: as, rest) →
       (∃ b p, a0 = .group .brace b p) ∧ strip a0.string = a0.string ∧ noBareA [a0] = true
 
 theorem memStr_append {x : Str} {a b : List Str} (h : memStr x (a ++ b) = true) :
